@@ -40,6 +40,12 @@ type c02Reader struct {
 	sparse  bool // costly kind (goes through a real file): run on the offsets near the payload's end and on every 8th other one
 }
 
+// fwdSeeker forwards Read and Seek and hides the concrete type of what it wraps.
+type fwdSeeker struct{ rs io.ReadSeeker }
+
+func (f fwdSeeker) Read(p []byte) (int, error)                { return f.rs.Read(p) }
+func (f fwdSeeker) Seek(off int64, whence int) (int64, error) { return f.rs.Seek(off, whence) }
+
 // c02Readers builds the reader table. With fault >= 0 every source fails with lab.ErrInjectedIO
 // on any access to a byte at offset >= fault (and never reports io.EOF); source kinds that cannot
 // be wrapped that way are left out.
@@ -133,7 +139,7 @@ func c02Readers(fault int64) []c02Reader {
 	stutter := func(b []byte) io.Reader { return &lab.StutterReader{B: b} }                          // (0,nil) calls, tiny pieces, data+EOF
 	dataErr := func(b []byte) io.Reader { return iotest.DataErrReader(lab.PlainReader{R: base(b)}) } // last byte comes with io.EOF
 	eofSeek := func(b []byte) io.Reader { return lab.EOFSeeker{R: bytes.NewReader(b)} }              // seekable, last bytes come with io.EOF
-	overData := func(skipping bool) func([]byte) ([]refcar.Block, bool, error) {
+	overData := func(skipping bool, wrapped bool) func([]byte) ([]refcar.Block, bool, error) {
 		return func(in []byte) ([]refcar.Block, bool, error) {
 			rd, err := carv2.NewReader(base(in))
 			if err != nil {
@@ -143,7 +149,11 @@ func c02Readers(fault int64) []c02Reader {
 			if err != nil {
 				return nil, false, err
 			}
-			br, err := carv2.NewBlockReader(dr)
+			var src io.Reader = dr
+			if wrapped {
+				src = fwdSeeker{dr} // the same seeker behind a thin forwarding type
+			}
+			br, err := carv2.NewBlockReader(src)
 			if err != nil {
 				return nil, false, err
 			}
@@ -232,8 +242,9 @@ func c02Readers(fault int64) []c02Reader {
 		}},
 		// the block reader over the payload reader of a v2 Reader (for a CARv2 that is a section of the
 		// file whose length is the one the header DECLARES)
-		{name: "v2.BlockReader.Next(Reader.DataReader)", hashes: true, returns: true, run: overData(false)},
-		{name: "v2.BlockReader.SkipNext(Reader.DataReader)", run: overData(true)},
+		{name: "v2.BlockReader.Next(Reader.DataReader)", hashes: true, returns: true, run: overData(false, false)},
+		{name: "v2.BlockReader.SkipNext(Reader.DataReader)", run: overData(true, false)},
+		{name: "v2.BlockReader.SkipNext(wrapped Reader.DataReader)", run: overData(true, true)},
 		{name: "v2.BlockReader.SkipNext(bufio.Reader)", run: skip(buffered)},
 		{name: "v2.BlockReader.SkipNext(bytes.Reader)", run: skip(seekable)},
 		{name: "v2.BlockReader.SkipNext(plain)", run: skip(plain)},
